@@ -15,6 +15,17 @@ def ids(ops):
     return [o.operation_id for o in ops]
 
 
+
+def observers_lines(rng, jobs):
+    """One scenario in three: observers that READ the dispatcher from inside their callbacks are subscribed (a residual graph
+    updater, feature observers): what they do with the query results must not disturb the queries."""
+    if rng.random() >= 0.33 or max(d for job in jobs for _, d in job) >= 2 ** 24:
+        return []
+    out = [f"fres {rng.choice(['disjunctive', 'agent_task', 'agent_task_jobs', 'complete_agent_task'])} 1 1"]
+    for k in rng.sample(["is_completed -", "is_scheduled -", "is_ready -", "earliest_start_time -", "duration -"], rng.randint(0, 3)):
+        out.append("fobs " + k)
+    return out
+
 class Check(PropertyCheck):
     ID = "C05"
     LEAN_MODULE = "JobShopProofs.Properties.C05"
@@ -51,6 +62,7 @@ class Check(PropertyCheck):
             jobs, family = gen.make_huge(rng, jobs), family + "+huge"
         f = gen.gen_filter(rng)
         lines = ["new", instance_line(jobs), gen.filter_line(f)]
+        lines += observers_lines(rng, jobs)
         tr = gen.Tracker(jobs)
         M = slices.num_machines_of(jobs)
         total = gen.num_ops(jobs)
@@ -114,8 +126,8 @@ class Check(PropertyCheck):
         return Scenario(lines, meta)
 
     def make_impl(self, scenario):
-        from impl_ext import ImplRules
-        return ImplRules(scenario.meta.get("filter_style", "callable"))
+        from impl_ext import ImplEnv
+        return ImplEnv(filter_style=scenario.meta.get("filter_style", "callable"))
 
     def nontrivial(self, scenario, outs):
         return scenario.meta.get("accepted", 0) >= 3 and scenario.meta.get("queries", 0) >= 6
